@@ -390,7 +390,27 @@ def order_term(ctx, opname, a, b):
         return y <= x
     ta, tb = pytype_of(a), pytype_of(b)
     if isinstance(a, (list, tuple)) and isinstance(b, (list, tuple)) and type(a) is type(b):
-        raise Unsupported("ordering of sequences with symbolic members")
+        # lexicographic: the first differing pair decides, a proper prefix is smaller
+        def T(x):
+            return z3.BoolVal(x) if isinstance(x, bool) else x
+        n = min(len(a), len(b))
+        strict = "Lt" if opname in ("Lt", "LtE") else "Gt"
+        alts = []
+        prefix = []
+        for i in range(n):
+            e = T(eq_term(ctx, a[i], b[i]))
+            o = T(order_term(ctx, strict, a[i], b[i]))
+            alts.append(z3.And(*(prefix + [z3.Not(e), o])))
+            prefix = prefix + [e]
+        all_eq = z3.And(*prefix) if prefix else z3.BoolVal(True)
+        if strict == "Lt":
+            tail = len(a) < len(b)
+        else:
+            tail = len(a) > len(b)
+        res = z3.Or(*(alts + [z3.And(all_eq, z3.BoolVal(tail))]))
+        if opname in ("LtE", "GtE"):
+            res = z3.Or(res, z3.And(all_eq, z3.BoolVal(len(a) == len(b))))
+        return res
     if isinstance(a, (SOpaque, SHex)) or isinstance(b, (SOpaque, SHex)):
         raise Unsupported("ordering on opaque value")
     raise SymRaise(TypeError("'%s' not supported between instances of '%s' and '%s'" % (
